@@ -9,6 +9,10 @@ Re-read from /repo's current sources on every run:
 * `_ControlLoopRunner._process_tick`: `adapter.on_tick(tick)` is awaited before the loop that executes the commands;
 * `TickPersistenceDecorator.context_from_ticks`: validates the workflow (builds the catch_error tables) before replay.
 
+* `SqliteWorkflowStore.stream_ticks` (the tick source of the replay): `_TICK_PAGE_SIZE`, every page query is limited by
+  exactly that constant, the keyset cursor is the sequence of the row just yielded, the loop ends on a short page
+  (`C13_tick_stream_shape`, model `WfModel/TickStream.lean`).
+
 `WfProps/C13.lean` (`C13_source_shape`) pins these to what the model `WfModel/Replay.lean` does.
 """
 from __future__ import annotations
@@ -20,6 +24,102 @@ from ..boot import repo_path
 LEAN_MODULE = "GenReplay"
 PERSIST = "packages/llama-agents-server/src/llama_agents/server/_runtime/persistence_runtime.py"
 LOOP = "packages/llama-index-workflows/src/workflows/runtime/control_loop.py"
+SQLITE_STORE = "packages/llama-agents-server/src/llama_agents/server/_store/sqlite/sqlite_workflow_store.py"
+PAGE_CONST = "_TICK_PAGE_SIZE"
+
+
+def tick_page_size(notes: list[str] | None = None) -> int | None:
+    """`_TICK_PAGE_SIZE` of the sqlite store, read from the source text (None when it is not a literal int)"""
+    try:
+        tree = ast.parse(open(repo_path(SQLITE_STORE)).read())
+    except (OSError, SyntaxError) as e:
+        if notes is not None:
+            notes.append(f"gen/replay: cannot parse the sqlite store: {e!r}")
+        return None
+    for n in tree.body:
+        tgt = None
+        if isinstance(n, ast.Assign) and len(n.targets) == 1 and isinstance(n.targets[0], ast.Name):
+            tgt, val = n.targets[0].id, n.value
+        elif isinstance(n, ast.AnnAssign) and isinstance(n.target, ast.Name) and n.value is not None:
+            tgt, val = n.target.id, n.value
+        if tgt == PAGE_CONST:
+            if isinstance(val, ast.Constant) and isinstance(val.value, int) and not isinstance(val.value, bool):
+                return int(val.value)
+            break
+    if notes is not None:
+        notes.append(f"gen/replay: {PAGE_CONST} is not a literal int in the sqlite store")
+    return None
+
+
+def _is_page_const(n: ast.AST) -> bool:
+    return isinstance(n, ast.Name) and n.id == PAGE_CONST
+
+
+def _stream_shape(notes: list[str]) -> dict:
+    """shape of SqliteWorkflowStore.stream_ticks"""
+    res = {"tickPageSize": 0, "streamLimitIsPageSize": False, "streamCursorIsLastYielded": False, "streamStopsOnShortPage": False}
+    ps = tick_page_size(notes)
+    res["tickPageSize"] = ps if ps is not None and ps >= 0 else 0
+    try:
+        tree = ast.parse(open(repo_path(SQLITE_STORE)).read())
+    except (OSError, SyntaxError):
+        return res
+    fn = _find_def(tree, "stream_ticks", "SqliteWorkflowStore")
+    if fn is None:
+        notes.append("gen/replay: SqliteWorkflowStore.stream_ticks not found")
+        return res
+    # every `params = [...]` of the function: last element (the LIMIT) is the page constant itself
+    plists = []
+    for n in ast.walk(fn):
+        val = None
+        if isinstance(n, ast.Assign) and any(isinstance(t, ast.Name) and t.id == "params" for t in n.targets):
+            val = n.value
+        elif isinstance(n, ast.AnnAssign) and isinstance(n.target, ast.Name) and n.target.id == "params":
+            val = n.value
+        if val is not None:
+            plists.append(val)
+    sqls = [" ".join(c.value.split()) for c in ast.walk(fn) if isinstance(c, ast.Constant) and isinstance(c.value, str) and "SELECT" in c.value]
+    res["streamLimitIsPageSize"] = (bool(plists) and all(isinstance(v, ast.List) and v.elts and _is_page_const(v.elts[-1]) for v in plists)
+                                    and len(sqls) == 2 and all(q.endswith("ORDER BY sequence LIMIT ?") for q in sqls)
+                                    and sum(1 for q in sqls if "AND sequence > ?" in q) == 1)
+    # the cursor: the name compared with None; assigned only `None` outside the yielding loop and `<yielded>.sequence` inside it
+    cursor = None
+    for n in ast.walk(fn):
+        if isinstance(n, ast.Compare) and isinstance(n.left, ast.Name) and len(n.ops) == 1 and isinstance(n.ops[0], ast.Is) \
+                and isinstance(n.comparators[0], ast.Constant) and n.comparators[0].value is None:
+            cursor = n.left.id
+            break
+    yloop = next((n for n in ast.walk(fn) if isinstance(n, ast.For) and any(isinstance(c, ast.Yield) for c in ast.walk(n))), None)
+    if cursor is not None and yloop is not None:
+        ynames = [c.value.id for c in ast.walk(yloop) if isinstance(c, ast.Yield) and isinstance(c.value, ast.Name)]
+        inside = {id(c) for c in ast.walk(yloop)}
+        ok = len(ynames) == 1
+        n_in = 0
+        for n in ast.walk(fn):
+            tgt = None
+            if isinstance(n, ast.Assign) and len(n.targets) == 1 and isinstance(n.targets[0], ast.Name):
+                tgt, val = n.targets[0].id, n.value
+            elif isinstance(n, ast.AnnAssign) and isinstance(n.target, ast.Name):
+                tgt, val = n.target.id, n.value
+            if tgt != cursor:
+                continue
+            if id(n) in inside:
+                n_in += 1
+                ok = ok and isinstance(val, ast.Attribute) and val.attr == "sequence" and isinstance(val.value, ast.Name) and val.value.id in ynames
+            else:
+                ok = ok and isinstance(val, ast.Constant) and val.value is None
+        # the loop walks the fetched rows themselves (no slice, no filter)
+        ok = ok and isinstance(yloop.iter, ast.Name)
+        res["streamCursorIsLastYielded"] = bool(ok and n_in == 1)
+    # `if len(rows) < _TICK_PAGE_SIZE: return`
+    for n in ast.walk(fn):
+        if isinstance(n, ast.If) and isinstance(n.test, ast.Compare) and len(n.test.ops) == 1 and isinstance(n.test.ops[0], ast.Lt) \
+                and _call_name(n.test.left) == "len" and _is_page_const(n.test.comparators[0]) \
+                and len(n.body) == 1 and isinstance(n.body[0], ast.Return) and not n.orelse:
+            if yloop is not None and isinstance(yloop.iter, ast.Name) and isinstance(n.test.left, ast.Call) and n.test.left.args \
+                    and isinstance(n.test.left.args[0], ast.Name) and n.test.left.args[0].id == yloop.iter.id:
+                res["streamStopsOnShortPage"] = True
+    return res
 
 
 def _find_def(tree: ast.AST, name: str, cls: str | None = None) -> ast.AST | None:
@@ -53,6 +153,7 @@ def extract(notes: list[str]) -> dict:
                  "exitStatuses": ["<missing>"], "exitClasses": ["<missing>"], "replayRewindsFirst": False,
                  "replayReducesPerTick": 999, "replayLoopHasEarlyExit": True, "persistBeforeCommands": False,
                  "validatesBeforeReplay": False}
+    res.update(_stream_shape(notes))
     try:
         ptree = ast.parse(open(repo_path(PERSIST)).read())
         ltree = ast.parse(open(repo_path(LOOP)).read())
@@ -157,6 +258,14 @@ def generate(notes: list[str]) -> list[str]:
         f"def persistBeforeCommands : Bool := {b(r['persistBeforeCommands'])}",
         "/-- `context_from_ticks` validates the workflow (catch_error tables) before it builds the replay state -/",
         f"def validatesBeforeReplay : Bool := {b(r['validatesBeforeReplay'])}",
+        "/-- `_TICK_PAGE_SIZE` of the sqlite store (0: not a literal) -/",
+        f"def tickPageSize : Nat := {int(r['tickPageSize'])}",
+        "/-- every page query of `SqliteWorkflowStore.stream_ticks` is `… ORDER BY sequence LIMIT _TICK_PAGE_SIZE` -/",
+        f"def streamLimitIsPageSize : Bool := {b(r['streamLimitIsPageSize'])}",
+        "/-- the keyset cursor is assigned only the sequence of the row just yielded -/",
+        f"def streamCursorIsLastYielded : Bool := {b(r['streamCursorIsLastYielded'])}",
+        "/-- `if len(rows) < _TICK_PAGE_SIZE: return` is the loop's exit -/",
+        f"def streamStopsOnShortPage : Bool := {b(r['streamStopsOnShortPage'])}",
         "",
         "end Engine.GenReplay",
     ]
